@@ -237,7 +237,7 @@ func (e *Exec) unknownCall(st *State, ci *callInfo, retTo ssa.Value) Value {
 		st.allocTop = nt
 		st.epochTop = nt
 		e.assumeGlobalInv(st)
-		e.emit(st, Event{Name: "Unknown", MayLoop: []string{"*"}, Pos: ci.pos})
+		e.emit(st, Event{Name: "Unknown", MayLoop: []string{"*"}, Deep: true, Pos: ci.pos})
 	}
 	if retTo == nil {
 		return Value{}
@@ -256,7 +256,7 @@ func shortName(k string) string {
 // writes nothing the program can observe, emits nothing" (logging, formatting).
 func (e *Exec) pureUnknown(ci *callInfo) bool {
 	k := ci.key
-	for _, p := range []string{"log/slog.", "(*log/slog.Logger).", "fmt.Sprintf", "fmt.Errorf", "fmt.Sprint", "errors.New", "(*log/slog", "log/slog", "strconv.", "strings.", "path.Join", "net/http.StatusText", "time.Since", "time.Now", "(time.Duration).", "(time.Time).", "encoding/hex.", "net/http.CanonicalHeaderKey", "(net/http.Header).Get", "(net/http.Header).Values", "slices.", "maps.", "cmp.", "os.Getenv", "os.TempDir", "os.UserHomeDir", "iface hash.Hash", "crypto/sha256.New"} {
+	for _, p := range []string{"log/slog.", "(*log/slog.Logger).", "fmt.Sprintf", "fmt.Errorf", "fmt.Sprint", "errors.New", "(*log/slog", "log/slog", "strconv.", "strings.", "path.Join", "net/http.StatusText", "time.Since", "time.Now", "(time.Duration).", "(time.Time).", "encoding/hex.", "net/http.CanonicalHeaderKey", "(net/http.Header).Get", "(net/http.Header).Values", "slices.", "maps.", "cmp.", "os.Getenv", "os.TempDir", "os.UserHomeDir", "iface hash.Hash", "crypto/sha256.New", "(*regexp.Regexp).", "net/http.StatusText"} {
 		if strings.HasPrefix(k, p) {
 			return true
 		}
@@ -546,9 +546,18 @@ func (e *Exec) applyContract(st *State, fr *Frame, ci *callInfo, c *FuncContract
 	post := &SpecEnv{e: e, st: st, vars: env.vars, pkg: pkg, old: pre, oldTop: preTop, oldNow: preNow, trace: st.trace, what: "call " + c.Key}
 	e.bindResults(post, resultNames(c, sig), sig, res)
 	for _, en := range c.Ensures {
+		if mentionsTrace(en.Expr) {
+			// statements about the callee's own trace are not facts about the
+			// caller's trace: the caller sees the callee's declared `emits` only
+			continue
+		}
 		t, err := post.evalBool(en.Expr)
 		if err != nil {
 			e.specErr(err)
+			continue
+		}
+		if t.S == "false" {
+			e.specErr(fmt.Errorf("ensures clause %q of %s is false at a call site (would make the path vacuous)", en.Name, c.Key))
 			continue
 		}
 		st.assert(t)
@@ -579,6 +588,9 @@ func (e *Exec) applyContract(st *State, fr *Frame, ci *callInfo, c *FuncContract
 		if !bad {
 			e.emit(st, ev)
 		}
+	}
+	if len(c.MayEmit) > 0 {
+		e.emit(st, Event{MayLoop: append([]string(nil), c.MayEmit...), Deep: true, Pos: ci.pos})
 	}
 	var out Value
 	switch len(res) {
@@ -814,4 +826,21 @@ func (e *Exec) monotoneLinkFrom(st *State, key string, old, nw Term) {
 		return
 	}
 	st.assert(Term{fmt.Sprintf("(forall ((x Int)) (! (=> (select %s x) (select %s x)) :pattern ((select %s x))))", old.S, nw.S, nw.S), SBool})
+}
+
+var tracePreds = map[string]bool{"nowhere": true, "emitted": true, "none": true, "count": true, "before": true, "first": true, "only": true, "last_is": true, "all": true}
+
+func mentionsTrace(x *SExpr) bool {
+	if x == nil {
+		return false
+	}
+	if x.Op == "call" && x.Args[0].Op == "id" && tracePreds[x.Args[0].Name] {
+		return true
+	}
+	for _, a := range x.Args {
+		if mentionsTrace(a) {
+			return true
+		}
+	}
+	return false
 }
